@@ -244,7 +244,7 @@ func runC05(c *Ctx) {
 	r.Assume("the retry count is the request's global number of policy-driven retries ('once' = retryCount == 0); fail-over after connection loss does not consume a retry")
 	r.Assume("plan = hosts sorted by address, rotated by an unknown but fixed start (read off the first attempt)")
 	r.Assume("PREPARE requests are treated as idempotent (preparing has no side effect)")
-	r.Require("sequences_run", "decision_calls", "send_gate_cases", "same_host_retry_host_lost_cases", "partial_pool_cases", "partial_pool_lost_slot_0", "partial_pool_lost_slot_1", "host_removed_mid_plan_cases", "unprepared_along_the_plan_cases", "plan_across_counter_wrap_requests")
+	r.Require("sequences_run", "decision_calls", "send_gate_cases", "same_host_retry_host_lost_cases", "partial_pool_cases", "partial_pool_lost_slot_0", "partial_pool_lost_slot_1", "host_removed_mid_plan_cases", "unprepared_along_the_plan_cases", "conn_lost_during_reprepare_cases", "plan_across_counter_wrap_requests")
 
 	// (1) decision functions, exhaustive grid (every shard contributes a slice)
 	decisionFunctions(c)
@@ -373,6 +373,11 @@ func runC05(c *Ctx) {
 	for i := 0; i < c.Pick(21, 840); i++ {
 		if c.Mine(i+3) || c.Replay != nil {
 			unpreparedAlongThePlan(c, i)
+		}
+	}
+	for i := 0; i < c.Pick(12, 480); i++ {
+		if c.Mine(i+6) || c.Replay != nil {
+			connLostDuringReprepare(c, i)
 		}
 	}
 	for i := 0; i < c.Pick(8, 64); i++ {
